@@ -87,12 +87,23 @@ CheckBodyStart(P, T, sm, s, ln) ==
                                          \cup (IF P.has_rec THEN {"C11.bound"} ELSE {})
                                          \cup (IF \E k \in 1..Len(P.case_nodes) : P.case_nodes[k] = n THEN {"C09.reuse"} ELSE {})
                        ELSE {})
-                 ELSE IF n \in InvNodes(sm)
-                      THEN Feat(P, {"C03.final"} \cup (IF nd.attempts > 1 THEN {"C12.sameargs"} ELSE {}),
+                 ELSE IF \E x \in sm.inv : x[1] = n /\ Count(s.log, LAMBDA y : IsBS(y) /\ y[2] = n /\ y[3] = x[2]) < x[3]
+                      THEN (* an expected invocation of n is still outstanding: this is it, with wrong arguments *)
+                           Feat(P, {"C03.final"} \cup (IF nd.attempts > 1 THEN {"C12.sameargs"} ELSE {}),
                                 {"C09.route"}, {"C10.first"}, {"C11.data"})
-                      ELSE Feat(P, IF P.has_switch \/ P.has_oneof \/ P.has_rec THEN {} ELSE {"C03.final"},
+                      ELSE (* nothing asks for (another) execution of n: it was not demanded *)
+                           Feat(P, IF P.has_switch \/ P.has_oneof \/ P.has_rec THEN {} ELSE {"C03.final"},
                                 {"C09.lazy"}, {"C10.lazy"}, {"C11.paths"})
-        cleanc == (IF KwBad(kw) THEN {"C03.clean"} ELSE {})
+        (* a None that the declared source never returns is a placeholder for a missing / invalidated result *)
+        placeholder == \E i \in 1..Len(kw) : kw[i][2] = <<"none">> /\
+                          \E j \in 1..Len(nd.params) :
+                              /\ nd.params[j].kw = kw[i][1] /\ nd.params[j].kind \in {"input", "rec"}
+                              /\ LET src == nd.params[j].node
+                                     pls == <<P.runs[ln.r].plan[src]>> \o P.runs[ln.r].plan_it[src]
+                                 IN  ~\E a \in 1..Len(pls) : \E b \in 1..Len(pls[a]) : pls[a][b][1] = "none"
+        prevbs == SelectSeq(ce.ents, IsBS)
+        sameargsc == IF Len(prevbs) > 0 /\ prevbs[Len(prevbs)][3] # kw THEN {"C12.sameargs"} ELSE {}
+        cleanc == (IF KwBad(kw) \/ placeholder THEN {"C03.clean"} ELSE {}) \cup sameargsc
                   \cup (IF KwErrVal(kw) /\ P.has_oneof THEN {"C10.contain"} ELSE {})
         inputc == IF n = P.input /\ ~nd.is_start /\ kw # P.runs[ln.r].input THEN {"C03.input"} ELSE {}
         orderc == IF KwProvTerms(kw) \subseteq s.announced THEN {} ELSE {"C03.order", "C14.before"}
@@ -125,7 +136,7 @@ CheckDefault(P, T, sm, s, ln) ==
 CheckEv(P, T, sm, s, ln) ==
     LET n == ln.n
         ce == CurExec(s.log, n)
-    IN  LateC(s) \cup
+    IN  LateC(s) \cup (IF s.ret # <<>> THEN {"C14.complete"} ELSE {}) \cup
         CASE ln.kind = "pipeline_start" -> IF Len(s.log) # 0 THEN {"C14.start"} ELSE {}
           [] ln.kind = "pipeline_complete" -> StartC(s) \cup AfterCompleteC(s)
           [] ln.kind = "node_start" ->
@@ -154,7 +165,7 @@ CheckSave(P, T, sm, s, ln) ==
 Depth(P, n) == P.depth[n]
 CheckQuiescent(P, T, S, ln) ==
     (IF ln.gates = 0 /\ ln.timers = 0 /\ Len(ln.pending) > 0
-     THEN Feat(P, {"C02.stuck"}, {"C09.stuck"}, {"C10.stuck"}, {"C11.stuck"}) ELSE {})
+     THEN Feat(P, {"C02.stuck", "C01.stuck"}, {"C09.stuck"}, {"C10.stuck"}, {"C11.stuck"}) ELSE {})
     \cup
     (* with a suspended collaborator call (event callback, artifact save) a finished body is not yet a completed node *)
     (IF P.plain /\ Len(ln.pending) > 0 /\ ln.collab_gates = 0
@@ -180,6 +191,9 @@ CheckReturn(P, T, sm, s, ln) ==
         savesn(n) == SelectSeq(s.log, LAMBDA x : IsSV(x) /\ x[2] = n)
         (* the engine cancelled n's task inside a suspended collaborator call after n's last production: the
            completion path of n (store, save, notify) was cut short, no artifact is due *)
+        (* the node's final value reached a consumer or is the result of the run *)
+        consumed(n) == LET lv == lastprod(n)
+                       IN  v = lv \/ \E j \in 1..Len(s.log) : IsBS(s.log[j]) /\ \E i \in 1..Len(s.log[j][3]) : s.log[j][3][i][2] = lv
         cutshort(n) == LET lp == LastIdx(s.log, LAMBDA x : (IsBE(x) /\ x[2] = n /\ x[4][1] = "ok") \/ (IsDF(x) /\ x[2] = n))
                        IN  \E j \in 1..Len(s.log) : j > lp /\ s.log[j][1] = "CUT" /\ s.log[j][2] = n
         lastev == LastIdx(s.log, IsEV)
@@ -230,8 +244,9 @@ CheckReturn(P, T, sm, s, ln) ==
       (IF kind = "value"
        THEN UNION {IF Len(prodn(n)) = 0
                    THEN (IF Len(savesn(n)) = 0 THEN {} ELSE {"C19.value"})
-                   ELSE IF Len(savesn(n)) = 0 /\ cutshort(n) THEN {}
-                   ELSE (IF Len(savesn(n)) # 1
+                   ELSE IF Len(savesn(n)) = 0 /\ cutshort(n) /\ ~consumed(n) THEN {}
+                   ELSE (IF Len(savesn(n)) = 0 THEN {"C19.missing"}
+                         ELSE IF Len(savesn(n)) # 1
                          THEN (IF \E i \in 1..Len(P.rec_inside) : P.rec_inside[i] = n
                                THEN {"C19.once_rec"} ELSE {"C19.once"})
                          ELSE IF savesn(n)[1][3] # lastprod(n) THEN {"C19.value"} ELSE {})
